@@ -27,7 +27,8 @@ RULE_ADDED = ("Added later: guess 'edge' / x_tol 'xfirst' boundary values, famil
               'letter case, gd/adam transition-conformance oracle, overshooting gd / adam steps (step 3/mu, adam st'
               'ep 5) on runs of 1-3 iterations, call-order plane in fresh interpreters. Round 4: families atan (uni'
               'form far offsets 4/10/15: line search through its cubic stage) and expand (non-contractive map; Ande'
-              'rson / root finders).')
+              'rson / root finders). Round 7: units (the unknown in units of 2^-14 in single precision: requested '
+              'absolute tolerances below the machine epsilon of the dtype, attainable all the same).')
 ASSUMPTIONS = [
     "all tolerances and iteration limits are passed explicitly (f_tol, x_tol, f_rtol=x_rtol=inf resp. 0 for gd/adam, "
     "maxiter, alpha, step, momentum); nothing depends on a library default",
@@ -142,6 +143,21 @@ def cases(tier, seed):
                                             "family": family, "dtype": dtype, "n": n, "shape": kind,
                                             "guess": guess, "f_tol": ft, "x_tol": xt, "maxiter": mi,
                                             "plane": plane, "seed": int(seed) if plane > 0 else 0})
+    # the unknown in other units (y' = 2^-14 y) in single precision: the requested absolute tolerances (scaled with the
+    # unit) lie below the machine epsilon of the dtype and are attainable all the same
+    sg = 2.0 ** -14
+    for functional in ("rootfinder", "equilibrium"):
+        for (method, alpha, ls, fnd, variant) in _method_variants(functional, tier):
+            if alpha == "auto":
+                continue
+            for family in ("affine", "tanh02"):
+                for (n, kind) in ((2, "2n"), (5, "n")):
+                    for guess in ("zero", "far"):
+                        for (ft, xt) in ((1e-4 * sg, "inf"), (1e-3 * sg, 1e-3 * sg)):
+                            out.append({"functional": functional, "method": method, "variant": variant,
+                                        "alpha": alpha, "line_search": ls, "feat_ndims": fnd, "family": family,
+                                        "dtype": "float32", "n": n, "shape": kind, "guess": guess, "f_tol": ft,
+                                        "x_tol": xt, "maxiter": "gen", "plane": 0, "seed": 0, "units": -14})
     # method names in another letter case select the same algorithm AND the same reduction of the problem
     for (functional, method, variant, fnd, fam, spell) in (
             ("equilibrium", "anderson_acc", None, "last", "tanh06", "Anderson_Acc"),
@@ -271,7 +287,7 @@ def _exc_class(o):
 
 def run_case(cfg):
     prob = Problem(cfg["family"], cfg["n"], cfg["shape"], cfg["dtype"], centred=True, plane=cfg["plane"],
-                   seed=cfg["seed"])
+                   seed=cfg["seed"], sigma=2.0 ** cfg.get("units", 0))
     log = []
     fun, spy, opts, resid, ft, xt = _build_call(cfg, prob, log)
     if cfg["guess"] == "edge":
